@@ -118,7 +118,8 @@ FUNCTIONS += [(SYM, "Comparator._evaluate__"), (SYM, "Comparator.apply_operation
               (SYM, "QueryObjectDescriptor.evaluate_selected_variables"), (SYM, "QueryObjectDescriptor._evaluate_selected_variables_from_"),
               (SYM, "QueryObjectDescriptor.evaluate_conclusions_and_update_bindings"),
               (SYM, "QueryObjectDescriptor.any_selected_variable_is_inferred_and_unbound"),
-              (SYM, "ResultQuantifier._process_result_"), (SYM, "optimize_or"),
+              (SYM, "ResultQuantifier._process_result_"), (SYM, "optimize_or"), (SYM, "SymbolicExpression._invert_"),
+              (SYM, "ForAll._invert_"), (SYM, "Exists._invert_"), (SYM, "ResultQuantifier._invert_"), (SYM, "QueryObjectDescriptor._invert_"),
               (HD, "HashedValue.__post_init__")]
 BOUNDED_ONLY_CLAUSES = ["ForAll / Exists, Index / Call / Flatten, predicates inside queries and whole-query composition are decided by the "
                         "bounded oracle driver only", "== / != on two iterables (krrood compares them as sets) is excluded from the Comparator lemma"]
@@ -448,6 +449,45 @@ def optimize_or_harness():
     return Harness("optimize_or", run, spec=Spec())
 
 
+def invert_harness():
+    """not_(e) denotes the negation of e for arbitrary (e.g. partially ordered) operand values: conditions are wrapped in Not,
+    quantified conditionals become their dual over the inverted condition, queries cannot be negated."""
+    def run(vm):
+        ctx = vm.ctx
+        made = []
+
+        def ctor(name):
+            def f(it, a, k):
+                o = it.alloc(vm.loader.cls(SYM, name), {}, tag=f"built-{name}")
+                made.append((name, a[1:], k, o))
+                return o
+            return f
+        for n in ("Not", "ForAll", "Exists"):
+            vm.spec.stubs[f"{n}.__call__"] = ctor(n)
+        for cname in ("Comparator", "AND", "Union", "ElseIf", "Attribute", "Variable", "Literal", "Index", "Call", "Flatten"):
+            node = vm.alloc(vm.loader.cls(SYM, cname), {"_id_": 5, "operation": Opaque("op")}, tag=cname)
+            del made[:]
+            r = vm.call_method(node, "_invert_")
+            ok = len(made) == 1 and made[0][0] == "Not" and made[0][1] == [node] and r is made[0][3]
+            ctx.check("_invert_::a-condition-is-negated-by-wrapping-it-in-Not", z3.BoolVal(ok), detail=f"{cname}: {made}")
+        for cname, dual in (("ForAll", "Exists"), ("Exists", "ForAll")):
+            v = vm.alloc(vm.loader.cls(SYM, "Variable"), {"_id_": 6}, tag="quantified-variable")
+            c = vm.alloc(vm.loader.cls(SYM, "Comparator"), {"_id_": 7}, tag="condition")
+            node = vm.alloc(vm.loader.cls(SYM, cname), {"left": v, "right": c, "_id_": 8}, tag=cname)
+            del made[:]
+            r = vm.call_method(node, "_invert_")
+            ok = (len(made) == 2 and made[0][0] == "Not" and made[0][1] == [c] and made[1][0] == dual and made[1][1] == [v, made[0][3]] and r is made[1][3])
+            ctx.check("_invert_::a-quantified-conditional-becomes-its-dual-over-the-inverted-condition", z3.BoolVal(ok), detail=f"{cname}: {made}")
+        for cname in ("An", "The", "Entity", "SetOf"):
+            node = vm.alloc(vm.loader.cls(SYM, cname), {"_id_": 9}, tag=cname)
+            try:
+                vm.call_method(node, "_invert_")
+                ctx.fail("_invert_::queries-cannot-be-negated", detail=cname)
+            except PyRaise as pr:
+                ctx.check("_invert_::queries-cannot-be-negated", z3.BoolVal(getattr(pr.exc.cls, "name", "") == "UnsupportedNegation"), detail=cname)
+    return Harness("invert", run, spec=Spec())
+
+
 _stage_a = harnesses
 
 
@@ -455,4 +495,4 @@ def harnesses():
     return _stage_a()[:-1] + [comparator_harness("generic"), comparator_harness("eq"), variable_harness("operand"), variable_harness("condition"),
                               attribute_harness("operand"), attribute_harness("condition"), frame_domain_mapping(),
                               descriptor_harness(1), descriptor_harness(2), descriptor_no_condition(), process_result_harness(),
-                              optimize_or_harness(), h_canary()]
+                              optimize_or_harness(), invert_harness(), h_canary()]
